@@ -16,6 +16,28 @@ Theorem C02_cmd_iff : forall ts oc, res_ok (cmd_result ts oc) = true <-> crit_ac
 Proof. exact cmd_iff. Qed.
 Print Assumptions C02_cmd_iff.
 
+(* That statement, and every statement about requests below, rests on the roster being intact: the
+   multi-response branch finds the critical trait of an answering task through the task manager's
+   roster, and the roster's filters hand the roster's own slice to Tasks.Filtered.  It is an
+   explicit hypothesis here, ... *)
+Theorem C02_cmd_iff_given_intact_roster : forall ts oc, roster_intact = true ->
+  (res_ok (cmd_result ts oc) = true <-> crit_acked ts oc).
+Proof. exact cmd_iff_intact. Qed.
+Print Assumptions C02_cmd_iff_given_intact_roster.
+
+(* ... discharged from the running code: the probe of Tasks.Filtered that h02 -gen makes on every
+   run (gen/Gen_FilteredPure.v: receiver unchanged, result right, no shared backing array) ... *)
+Theorem C02_roster_filters_pure_in_source : roster_intact = true.
+Proof. exact roster_intact_in_source. Qed.
+Print Assumptions C02_roster_filters_pure_in_source.
+
+(* ... and without it nothing is promised: a command to two tasks or more goes through whatever
+   the critical ones answer. *)
+Theorem C02_cmd_needs_intact_roster : forall ts oc,
+  roster_intact = false -> (2 <= length (targets ts))%nat -> res_ok (cmd_result ts oc) = true.
+Proof. exact cmd_not_intact. Qed.
+Print Assumptions C02_cmd_needs_intact_roster.
+
 (* A critical commanded task that does not acknowledge (error reply in either state, send
    failure, silence, death) fails the command — for every task list and every behaviour of the
    other tasks. *)
